@@ -63,7 +63,9 @@ def propagate_fft(wavefront, pixelscale, shape=None, oversample=2,
                             f'least one dimension than maximum propagation '
                             f'shape {tuple(fft_shape//oversample)}')
         else:
-            shape_out = (shape[0] * oversample, shape[1]*oversample)
+            # (a whole number of samples as integers, for a floating point
+            # oversample as well - as in propagate_dft)
+            shape_out = tuple(_whole(np.asarray(shape) * oversample, 'shape * oversample'))
 
     out = Wavefront.empty(wavelength=prop_wavelength,
                           pixelscale = pixelscale/oversample,
